@@ -1,6 +1,8 @@
 // stub is the recording stand-in for the program wrapped by bklb /
 // kubectl-bkl. It records its argv and the bytes of every argument that names
-// an existing regular file into the directory named by VERIF_STUB_DIR.
+// an existing regular file into the directory named by VERIF_STUB_DIR. With
+// VERIF_STUB_GATE set it records argv at once and reads the files only when
+// that path exists (the simulation runs a rival invocation in between).
 package main
 
 import (
@@ -8,6 +10,7 @@ import (
 	"os"
 	"path/filepath"
 	"strings"
+	"time"
 )
 
 func main() {
@@ -18,6 +21,17 @@ func main() {
 	}
 	if err := os.WriteFile(filepath.Join(dir, "argv"), []byte(strings.Join(os.Args, "\x00")), 0o644); err != nil {
 		os.Exit(9)
+	}
+	if gate := os.Getenv("VERIF_STUB_GATE"); gate != "" {
+		// a wrapped program that does something else first (kubectl contacts
+		// its server) and reads its file arguments only later: wait until the
+		// simulation opens the gate
+		for k := 0; k < 4000; k++ {
+			if _, err := os.Stat(gate); err == nil {
+				break
+			}
+			time.Sleep(5 * time.Millisecond)
+		}
 	}
 	for i, a := range os.Args {
 		if fi, err := os.Stat(a); err == nil && fi.Mode().IsRegular() {
